@@ -48,6 +48,15 @@ func runE1(spec RunSpec, ch *Choices) *RunResult {
 	}
 
 	x.setup()
+	if x.planStep > 0 {
+		x.d.AtStep = func(step int) {
+			if step == x.planStep && !x.planFired {
+				x.planFired = true
+				ft := FaultTask{Kind: x.planKind}
+				x.d.Forced = x.rt.Spawn("planned:"+ft.Kind, func() { x.runFaultTask(ft) })
+			}
+		}
+	}
 
 	finish := func() *RunResult {
 		res.Hash = x.d.LogHash()
@@ -62,6 +71,8 @@ func runE1(spec RunSpec, ch *Choices) *RunResult {
 		res.Decisions = x.d.Decisions
 		res.Draws = ch.Draws
 		x.collectStats()
+		res.probeN("ops_client", x.cep.Ops)
+		res.probeN("ops_server", x.sep.Ops)
 		return res
 	}
 
@@ -137,6 +148,7 @@ func runE1(spec RunSpec, ch *Choices) *RunResult {
 	}
 
 	x.checkEnd(connAlive, faultFree)
+	x.checkFaultContainment()
 	if x.spec.Prop == "C18" {
 		x.checkOldReader()
 		for _, c := range x.ctl {
@@ -241,6 +253,9 @@ func (x *e1) checkLeaks() {
 		// the library must have closed each transport exactly once
 		for _, e := range []*Endpoint{x.cep, x.sep} {
 			lib := e.CloseCalls - x.harnessCloses(e)
+			if e == x.sep && x.lis != nil && x.lis.Accepts == 0 {
+				continue // the server never accepted the connection
+			}
 			if lib != 1 {
 				x.viol("close-count", fmt.Sprintf("library closed the %s transport %d times", roleOf(e, x), lib), "")
 			}
@@ -315,11 +330,16 @@ func (x *e1) collectStats() {
 
 // applyPlan installs an externally planned fault (fault enumeration modes).
 func (x *e1) applyPlan(plan string) {
-	// plan := endpoint:op:kind:partial
+	// plan := endpoint:op:kind:partial   |   step:<n>:<fault task kind>
 	var ep, kind string
 	var op, partial int
 	parts := strings.Split(plan, ":")
 	if len(parts) < 3 {
+		return
+	}
+	if parts[0] == "step" {
+		fmt.Sscan(parts[1], &x.planStep)
+		x.planKind = parts[2]
 		return
 	}
 	ep, kind = parts[0], parts[2]
